@@ -8,6 +8,9 @@
 //	SNAP     save a snapshot, "restart": restore it into a fresh StateMachine + fresh user SM
 //	H        GetSessionHash (walks the LRU through save)
 //	D        dump the session table
+//	INSTALL k  the replica stops applying (lags) for the next k entries, which only the
+//	         other replica applies; then that replica's snapshot is installed on the LIVE
+//	         lagging StateMachine (Recover on a non-empty session table) and the stream goes on
 //	CAP      print the default rsm.LRUMaxSessionCount of the binary (cross-check of the generated constant)
 package main
 
@@ -24,6 +27,7 @@ type op struct {
 	kind                      string
 	client, series, responded uint64
 	cmd                       []byte
+	n                         int // INSTALL: length of the lag window (entries)
 }
 
 func parseCase(line string) (id string, cap uint64, ops []op) {
@@ -52,6 +56,14 @@ func parseCase(line string) (id string, cap uint64, ops []op) {
 		case "E":
 			u := func(s string) uint64 { v, err := strconv.ParseUint(s, 10, 64); must(err); return v }
 			ops = append(ops, op{kind: "E", client: u(f[1]), series: u(f[2]), responded: u(f[3]), cmd: vh.UnHex(f[4])})
+		case "INSTALL":
+			n := 1
+			if len(f) > 1 {
+				v, err := strconv.Atoi(f[1])
+				must(err)
+				n = v
+			}
+			ops = append(ops, op{kind: "INSTALL", n: n})
 		default:
 			ops = append(ops, op{kind: f[0]})
 		}
@@ -136,18 +148,66 @@ func runCase(line string, obs *vh.LineWriter, st *vh.Stats) {
 	firstResult := map[tag]string{}
 	evictions, cachedHits, ignoredHits, rejectedHits, snaps, applies := 0, 0, 0, 0, 0, 0
 
+	var history []op // every entry of the log so far
+	lagLeft, installDue, installs := 0, false, 0
+	doInstall := func(k int) {
+		installs++
+		saved, want, acc, perr := r.installFrom(history, installs)
+		if perr != "" {
+			obs.Printf("%s %d INSTALLFAIL\n", id, k)
+			viol("op %d: installing a snapshot on the live replica failed: %s", k, perr)
+			return
+		}
+		c1, after := r.dump()
+		obs.Printf("%s %d S %s sm=%d\n", id, k, saved, acc)
+		obs.Printf("%s %d T %s sm=%d\n", id, k, showSessions(c1, after), r.usm.acc)
+		if got := showSessions(c1, after); got != want || r.usm.acc != acc {
+			viol("install: after installing a snapshot on the live replica its session table is %s sm=%d, the snapshot holds %s sm=%d", got, r.usm.acc, want, acc)
+		}
+		tc, td := twin.dump()
+		if showSessions(c1, after) != showSessions(tc, td) || r.usm.acc != twin.usm.acc {
+			viol("install: replica that installed the snapshot has %s sm=%d, replica that applied the log has %s sm=%d", showSessions(c1, after), r.usm.acc, showSessions(tc, td), twin.usm.acc)
+		}
+	}
 	for k, o := range ops {
+		if installDue {
+			installDue = false
+			doInstall(k - 1)
+		}
+		if lagLeft > 0 && o.kind != "E" {
+			obs.Printf("%s %d skip\n", id, k)
+			continue
+		}
 		switch o.kind {
+		case "INSTALL":
+			st.Count("op.INSTALL")
+			if o.n > 0 {
+				lagLeft = o.n
+			}
+			obs.Printf("%s %d INSTALL %d\n", id, k, o.n)
 		case "E":
 			kind := entryKind(o)
 			st.Count("op.E." + kind)
-			capBefore, before := r.dump()
-			accBefore := r.usm.acc
-			res := r.apply(o)
-			tres := twin.apply(o)
-			obs.Printf("%s %d %s\n", id, k, res.String())
-			if res.String() != tres.String() {
-				viol("snapshot/restart changed behaviour: op %d replica with restarts reports %q, replica without reports %q", k, res.String(), tres.String())
+			x := r
+			if lagLeft > 0 {
+				x = twin
+				st.Count("op.E.lagging")
+			}
+			capBefore, before := x.dump()
+			accBefore := x.usm.acc
+			res := x.apply(o)
+			history = append(history, o)
+			if lagLeft > 0 {
+				// only the other replica applies this entry; the replica under test lags
+				obs.Printf("%s %d L %s\n", id, k, res.String())
+				lagLeft--
+				installDue = lagLeft == 0
+			} else {
+				tres := twin.apply(o)
+				obs.Printf("%s %d %s\n", id, k, res.String())
+				if res.String() != tres.String() {
+					viol("snapshot/restart/install changed behaviour: op %d replica with restarts reports %q, replica without reports %q", k, res.String(), tres.String())
+				}
 			}
 			if res.panicked {
 				if kind != "bad" {
@@ -155,7 +215,7 @@ func runCase(line string, obs *vh.LineWriter, st *vh.Stats) {
 				}
 				continue
 			}
-			_, after := r.dump()
+			_, after := x.dump()
 			if kind == "register" && res.applyCalled && !res.rejected && len(after) <= len(before) {
 				evictions++
 			}
@@ -226,7 +286,7 @@ func runCase(line string, obs *vh.LineWriter, st *vh.Stats) {
 				}
 				if present == nil {
 					rejectedHits++
-					if !(res.applyCalled && res.rejected) || res.updateCalls != 0 || r.usm.acc != accBefore {
+					if !(res.applyCalled && res.rejected) || res.updateCalls != 0 || x.usm.acc != accBefore {
 						viol("unknown session: client %d not registered but op %d gave %s", o.client, k, res.String())
 					}
 					if showSessions(capBefore, before) != showSessions(capBefore, after) {
@@ -242,7 +302,7 @@ func runCase(line string, obs *vh.LineWriter, st *vh.Stats) {
 					}
 					if o.series <= ack {
 						ignoredHits++
-						if res.applyCalled || res.updateCalls != 0 || r.usm.acc != accBefore {
+						if res.applyCalled || res.updateCalls != 0 || x.usm.acc != accBefore {
 							viol("acknowledged duplicate: client %d series %d <= acknowledged %d but op %d gave %s", o.client, o.series, ack, k, res.String())
 						}
 					}
@@ -290,6 +350,9 @@ func runCase(line string, obs *vh.LineWriter, st *vh.Stats) {
 			obs.Printf("%s %d ? %s\n", id, k, o.kind)
 		}
 	}
+	if lagLeft > 0 || installDue {
+		doInstall(len(ops))
+	}
 	c, d := r.dump()
 	obs.Printf("%s end T %s sm=%d\n", id, showSessions(c, d), r.usm.acc)
 	tc, td := twin.dump()
@@ -301,6 +364,7 @@ func runCase(line string, obs *vh.LineWriter, st *vh.Stats) {
 	st.Count(fmt.Sprintf("case.ignored_dups<=%d", bucket(ignoredHits)))
 	st.Count(fmt.Sprintf("case.unknown_session<=%d", bucket(rejectedHits)))
 	st.Count(fmt.Sprintf("case.snaps<=%d", bucket(snaps)))
+	st.Count(fmt.Sprintf("case.installs<=%d", bucket(installs)))
 	nontrivial := cachedHits > 0 && rejectedHits > 0 && ignoredHits > 0 && applies > 0
 	body := line
 	if i := strings.Index(line, " "); i >= 0 {
